@@ -2,6 +2,10 @@ package harness
 
 import (
 	"bytes"
+	ethcrypto "com.tuntun.rangers/node/src/eth_crypto"
+	"com.tuntun.rangers/node/src/utility"
+	"com.tuntun.rangers/node/src/zzverif/evmasm"
+	"encoding/hex"
 	"encoding/json"
 	"fmt"
 	"math/big"
@@ -54,11 +58,11 @@ func (c06) Budget(tier string) runner.Budget {
 
 func (c06) Describe() runner.Description {
 	return runner.Description{
-		Rule: "each plan: 3..16 blocks, one transaction per block in ~80% of blocks (so the per-transaction statement is judged), value-heavy mix: multi-target transfers that fail part-way, zero/fractional/>18-decimal/negative/huge amounts, fee with insufficient balance, contract create with endowment (succeeding and failing; native and wrapped-Ethereum type 188 form), calls with value into programs that forward value, revert, burn all gas after moving value, self-destruct to the caller / to themselves, gas limits at and below the intrinsic cost (gas starvation), miner apply/add-stake/refund (stake lock and escrow), heights jumping to escrow release heights. After every block over the closed universe U (harness accounts, fee account, every contract ever created, miner accounts, escrow beneficiaries): sum(after) - sum(before) = + escrow released at this height (read from the escrow entries before the block) - stake locked by accepted apply/add-stake - balance of a contract that self-destructed naming itself; every balance in [0, 2^256); a failed transaction leaves the sum unchanged. distinct_nontrivial = distinct (tx kind, status, sum-delta sign) sequences with at least one failed value-moving transaction.",
+		Rule:        "each plan: 3..16 blocks, one transaction per block in ~80% of blocks (so the per-transaction statement is judged), value-heavy mix: multi-target transfers that fail part-way, zero/fractional/>18-decimal/negative/huge amounts, fee with insufficient balance, contract create with endowment (succeeding and failing; native and wrapped-Ethereum type 188 form), calls with value into programs that forward value, AUTHCALLs with value through a contract that holds an externally owned account's authorisation (sponsor = origin, often the poor account), revert, burn all gas after moving value, self-destruct to the caller / to themselves, gas limits at and below the intrinsic cost (gas starvation), miner apply/add-stake/refund (stake lock and escrow), heights jumping to escrow release heights. After every block over the closed universe U (harness accounts, fee account, every contract ever created, miner accounts, escrow beneficiaries): sum(after) - sum(before) = + escrow released at this height (read from the escrow entries before the block) - stake locked by accepted apply/add-stake - balance of a contract that self-destructed naming itself; every balance in [0, 2^256); a failed transaction leaves the sum unchanged. distinct_nontrivial = distinct (tx kind, status, sum-delta sign) sequences with at least one failed value-moving transaction.",
 		Assumptions: []string{"the address universe is closed under the generated transactions (targets, beneficiaries and created contracts are added as they appear)", "block rewards are scheduled into per-height escrow and only enter balances when released; the released amount is read from the escrow, not recomputed"},
 		Real:        []string{"core/vmexecutor", "executor (operator, contract, miner)", "vm (EVM: CALL/CREATE/SELFDESTRUCT with value)", "service (ChangeAssets, fee processing, miner/refund/reward managers)", "storage/account balances in the bound token contract"},
 		Stub:        []string{"ConsensusHelper", "network", "NTP clock"},
-		FaultKinds:  []string{"gas_starvation", "map_order_seed", "height_jump_to_escrow_release", "failed_tx"},
+		FaultKinds:  []string{"gas_starvation", "map_order_seed", "height_jump_to_escrow_release", "failed_tx", "authcall_with_value"},
 	}
 }
 
@@ -85,6 +89,17 @@ func c06GenTx(r *simrt.Rand, i int) node.TxSpec {
 		s.Value = []string{"0", "1", "3.5", "100000000000", "0.000000000000000001"}[r.Intn(5)]
 		s.Gas = []uint64{0, 60000000, 1590000, 1700000, 2500000, 8000000}[r.Intn(6)]
 		s.Eth = r.Chance(0.35)
+	case x < 56:
+		// AUTHCALL with value: a contract acts for an externally owned account; the SPONSOR (the transaction's
+		// origin, often the poor account) pays the value
+		s.K = "authcall"
+		s.From = []int{7, 7, 0, 5, 6}[r.Intn(5)]
+		s.Value = []string{"0.000000000000000003", "5", "0.002", "100000000000", "0"}[r.Intn(5)]
+		s.Acct = r.Intn(8) // recipient
+		s.Gas = []uint64{0, 2000000}[r.Intn(2)]
+		if s.From == 7 {
+			s.Gas = 2000000
+		}
 	case x < 80:
 		s.K = "call"
 		s.To = fmt.Sprintf("#%d", r.Intn(6))
@@ -159,6 +174,14 @@ func (c06) Gen(seed uint64, tier string) json.RawMessage {
 			blk.Txs = append(blk.Txs, c06GenTx(r, k))
 			k++
 		}
+		// an AUTHCALL transaction stands alone in its block, so that what it does to the sum is judged (and
+		// classified) per transaction
+		for _, t := range blk.Txs {
+			if t.K == "authcall" && len(blk.Txs) > 1 {
+				blk.Txs = []node.TxSpec{t}
+				break
+			}
+		}
 		p.Blocks = append(p.Blocks, blk)
 	}
 	b, _ := json.Marshal(p)
@@ -183,6 +206,9 @@ func (c06) Exec(raw json.RawMessage, st *simrt.Stats, log *simrt.Log) *simrt.Vio
 		}
 		txs = append(txs, node.TransferTx(node.Funded[0], 0, map[string]string{node.Account(i): amt}, fmt.Sprintf("fund%d", i)))
 	}
+	authKey := &node.HarnessKeys[1].SK.PrivKey
+	authority := ethcrypto.PubkeyToAddress(authKey.PublicKey)
+	txs = append(txs, node.TransferTx(node.Funded[0], 0, map[string]string{authority.GetHexString(): "500"}, "fund-authority"))
 	progs := []int{0, 1, 2, 3, 4, 5}
 	var creates []*types.Transaction
 	for k, pg := range progs {
@@ -193,6 +219,33 @@ func (c06) Exec(raw json.RawMessage, st *simrt.Stats, log *simrt.Log) *simrt.Vio
 		tx := node.TxSpec{K: "create", From: 1, Nonce: uint64(k), Prog: pg, Value: val, Salt: fmt.Sprintf("setupc%d", k)}.Build()
 		creates = append(creates, tx)
 		txs = append(txs, tx)
+	}
+	// the AUTHCALL contract: its code carries the authority's signature over (chain id, the contract's own
+	// address), so the address is computed first (creator = account 1, nonce = number of earlier creations)
+	acAddr := createAddress(common.HexToAddress(node.Account(1)), uint64(len(progs)))
+	{
+		commit := common.BytesToHash(common.Sha256([]byte("c06-authcall")))
+		msg := make([]byte, 97)
+		msg[0] = 0x03
+		copy(msg[1:33], common.BigToHash(common.GetChainId(3)).Bytes())
+		copy(msg[33:65], common.BytesToHash(acAddr.Bytes()).Bytes())
+		copy(msg[65:], commit.Bytes())
+		sig, err := ethcrypto.Sign(ethcrypto.Keccak256(msg), authKey)
+		if err != nil {
+			panic(runner.InfraError{Msg: "C06 setup: sign: " + err.Error()})
+		}
+		var ac evmasm.Code
+		word := func(b []byte) []byte { return common.BytesToHash(b).Bytes() }
+		for i, w := range [][]byte{word([]byte{sig[64]}), word(sig[0:32]), word(sig[32:64]), commit.Bytes()} {
+			ac.PushBytes(w).Push(uint64(0x100 + 32*i)).Op(evmasm.MSTORE)
+		}
+		ac.Push(128).Push(0x100).PushBytes(authority.Bytes()).Op(0xf6, evmasm.POP) // AUTH
+		// AUTHCALL(nonce = calldata word 0, gas, addr = word 2, value = word 1, valueExt 0, no args, no return data)
+		ac.Push(0).Push(0).Push(0).Push(0).Push(0).Push(32).Op(evmasm.CALLDATALOAD).Push(64).Op(evmasm.CALLDATALOAD).Push(200000).Push(0).Op(evmasm.CALLDATALOAD).Op(0xf7, evmasm.POP, evmasm.STOP)
+		tx := node.TxSpec{K: "create", From: 1, Nonce: uint64(len(progs)), Data: hex.EncodeToString(evmasm.Deployer(ac)), Salt: "setup-authcall"}.Build()
+		creates = append(creates, tx)
+		txs = append(txs, tx)
+		progs = append(progs, 1000)
 	}
 	blk, err := n.CastBlock(node.BlockSpec{QN: 1, PV: 1, TimeMs: 1000, Txs: txs})
 	if err != nil || n.Chain.AddBlockOnChain(node.CloneBlock(blk)) != types.AddBlockSucc {
@@ -207,6 +260,9 @@ func (c06) Exec(raw json.RawMessage, st *simrt.Stats, log *simrt.Log) *simrt.Vio
 		}
 		contracts = append(contracts, ex.Receipt.ContractAddress)
 		progOf[ex.Receipt.ContractAddress] = progs[k]
+	}
+	if contracts[len(contracts)-1] != acAddr {
+		panic(runner.InfraError{Msg: "C06 setup: the AUTHCALL contract is not at the pre-computed address"})
 	}
 	// second setup block: two registered miners (so that add-stake / refund find something)
 	{
@@ -230,6 +286,7 @@ func (c06) Exec(raw json.RawMessage, st *simrt.Stats, log *simrt.Log) *simrt.Vio
 	for _, c := range contracts {
 		universe[c] = true
 	}
+	universe[authority] = true
 	{
 		s0 := ec.state()
 		for t := byte(0); t < 2; t++ {
@@ -262,6 +319,7 @@ func (c06) Exec(raw json.RawMessage, st *simrt.Stats, log *simrt.Log) *simrt.Vio
 		specOf := map[common.Hash]node.TxSpec{}
 		nonceState := ec.state()
 		ctSeq := map[int]uint64{}
+		authSeq := uint64(0)
 		for _, s := range b.Txs {
 			f := ((s.From % 8) + 8) % 8
 			if s.Eth {
@@ -279,7 +337,19 @@ func (c06) Exec(raw json.RawMessage, st *simrt.Stats, log *simrt.Log) *simrt.Vio
 			if strings.HasPrefix(s.To, "#") {
 				var k int
 				fmt.Sscanf(s.To, "#%d", &k)
-				s.To = contracts[k%len(contracts)].GetHexString()
+				s.To = contracts[k%(len(contracts)-1)].GetHexString() // (the last one is the AUTHCALL contract)
+			}
+			if s.K == "authcall" {
+				val, _ := utility.StrToBigInt(s.Value)
+				if val == nil {
+					val = new(big.Int)
+				}
+				in := append(common.BigToHash(new(big.Int).SetUint64(nonceState.GetNonce(authority)+authSeq)).Bytes(), common.BigToHash(val).Bytes()...)
+				in = append(in, common.BytesToHash(common.HexToAddress(node.Account(s.Acct)).Bytes()).Bytes()...)
+				s.K, s.To, s.Data, s.Value = "call", acAddr.GetHexString(), hex.EncodeToString(in), "0"
+				s.Salt += "-ac"
+				authSeq++
+				st.Fault("authcall_with_value")
 			}
 			if s.Gas != 0 && s.Gas < 2600000 {
 				st.Fault("gas_starvation")
@@ -406,6 +476,12 @@ func (c06) Exec(raw json.RawMessage, st *simrt.Stats, log *simrt.Log) *simrt.Vio
 				where = "tx-" + b.Txs[0].K
 				if allFailed {
 					where += "-failed"
+				}
+				if b.Txs[0].K == "authcall" && len(receipts) == 1 && d.Sign() > 0 &&
+					d.Cmp(new(big.Int).Mul(new(big.Int).SetUint64(receipts[0].GasUsed), big.NewInt(1000000000))) == 0 {
+					// exactly the gas fee of the transaction: credited to the fee account although the origin, whose
+					// funds the AUTHCALL spent as sponsor, could no longer be debited
+					where = "tx-authcall-gas-fee-credited-not-debited"
 				}
 			}
 			dir := "created"
